@@ -396,6 +396,7 @@ func multiPart(out *bufio.Writer, r *rand.Rand, thorough bool) (n int) {
 				env.b.Cut(2, nth, k)
 			}
 			var impl string
+			tcase := time.Now()
 			res := guard(3*time.Second, func() error {
 				ctx, cancel := ctx3()
 				defer cancel()
@@ -422,6 +423,8 @@ func multiPart(out *bufio.Writer, r *rand.Rand, thorough bool) (n int) {
 			if res == "hang" {
 				impl = "hang - - -"
 				badTotal++
+			} else if time.Since(tcase) > time.Second {
+				badTotal++ // slow (waiting for a context deadline) is as costly as hung
 			}
 			cutTs := "none"
 			if ts := env.b.CutTimestamp(); ts != 0 {
@@ -532,11 +535,12 @@ func multiBroker(out *bufio.Writer, r *rand.Rand, thorough bool) (n int) {
 					c.Cut(a.cutKey, nth, k)
 				}
 				impl := "hang 0"
+				tcase := time.Now()
 				if guard(3*time.Second, func() error {
 					cnt, err := a.call(cl)
 					impl = fmt.Sprintf("%s %d", outcome(err), cnt)
 					return nil
-				}) == "hang" {
+				}) == "hang" || time.Since(tcase) > time.Second {
 					badTotal++
 				}
 				go tr.CloseIdleConnections()
@@ -554,6 +558,7 @@ func multiBroker(out *bufio.Writer, r *rand.Rand, thorough bool) (n int) {
 				c.Cut(2, nth, k)
 			}
 			impl := "hang - - -"
+			tcase := time.Now()
 			if guard(3*time.Second, func() error {
 				ctx, cancel := ctx3()
 				defer cancel()
@@ -577,7 +582,7 @@ func multiBroker(out *bufio.Writer, r *rand.Rand, thorough bool) (n int) {
 				}
 				impl = fmt.Sprintf("ok %s %s %s", ps[0], ps[1], ps[2])
 				return nil
-			}) == "hang" {
+			}) == "hang" || time.Since(tcase) > time.Second {
 				badTotal++
 			}
 			cutOn := "none"
@@ -615,7 +620,7 @@ func transportPath(out *bufio.Writer, r *rand.Rand, thorough bool) (n int, slowe
 			if d := time.Since(t0); d > slowest {
 				slowest = d
 			}
-			if f := strings.Fields(impl); len(f) == 4 && (f[1] != "ok" || f[0] == "hang") {
+			if f := strings.Fields(impl); len(f) == 4 && (f[1] != "ok" || f[0] == "hang" || time.Since(t0) > 1500*time.Millisecond) {
 				if badTotal++; badTotal >= badBudget {
 					fmt.Fprintf(out, "tp %s %d %d\t%s\n", s.name, flen, k, impl)
 					fmt.Fprintf(out, "tt %s %d %s\taccept\n", s.name, k, trace)
